@@ -21,3 +21,12 @@ Theorem C16_resized_statement : forall p p' t f t', TInv t -> execute t f = Ok t
 Proof. exact C16_resized_holds. Qed.
 Check C16_resized_statement : forall p p' t f t', TInv t -> execute t f = Ok t' -> holds_C16_resized (mkVt p t) f (mkVt p' t') = true.
 Print Assumptions C16_resized_statement.
+
+From Avt Require Import Gen.TermFns Proofs.TermTie Proofs.TermTieW Proofs.TermTieX.
+(** SOURCE TIE BY PROOF (translate/term2coq.py -> Gen/TermFns.v, W-mode): the method of `impl Terminal` is REGENERATED from src/terminal.rs on every run as a function over the scalar record `zt` and an abstract world behind the interface `zops` (recorded calls of the buffer / tabs / dirty-line primitives with their evaluated arguments, queries for tab stops / cells / charset translation); instantiated with the model's own primitives (`Om`) it is proved equal to the hand-written model function, panics included: the model performs exactly the primitive calls the Rust text performs - same arguments, order, marked rows, erase modes, case splits *)
+(** Terminal::execute as a whole (the screen switches are opaque whole-state steps here; their order relative to save / restore / reflow is tied) *)
+Theorem C16_source_execute : forall t f, TInv t -> w_execute Om (zabs t) (wabs t) f = Some (wres (execute t f)).
+Proof. exact tie_execute_all. Qed.
+Check C16_source_execute : forall t f, TInv t -> w_execute Om (zabs t) (wabs t) f = Some (wres (execute t f)).
+Print Assumptions C16_source_execute.
+
